@@ -41,7 +41,7 @@ type monSecondary[K comparable, V any] struct {
 	lastAsyncErr                 atomic.Value
 
 	// fail decides per call whether it fails (called under mu with op and a per-store call counter)
-	fail func(op string, n int64) bool
+	fail   func(op string, n int64) bool
 	nCalls int64
 	// gate, when non-nil, is received from before each Set is applied (lets a scenario hold the workers)
 	setGate chan struct{}
